@@ -90,6 +90,67 @@ Definition respond (g : cfg) (cb : bytes) (p : payload) : resp :=
   | PPlain st msg => plain_handler g st msg
   end.
 
+(* ---- WriteVersion(w, r, version): "major.minor.revision-extra", every number through
+   strconv.Atoi with the error ignored ---- *)
+(* strings.Split(s, sep) for a one-byte separator *)
+Fixpoint split_on (sep : N) (s : bytes) (cur : bytes) : list bytes :=
+  match s with
+  | [] => [rev cur]
+  | c :: t => if (c =? sep)%N then rev cur :: split_on sep t [] else split_on sep t (c :: cur)
+  end.
+
+Definition is_digit (c : N) : bool := ((48 <=? c) && (c <=? 57))%N.
+Definition max_i64 : Z := 9223372036854775807.
+Definition max_u64 : Z := 18446744073709551615.
+(* strconv.ParseUint(s, 10, 64), left to right: the first invalid byte is a syntax error, the
+   first uint64 overflow a range error -- whichever comes first decides *)
+Inductive scan_res := ScanOk (n : Z) | ScanSyntax | ScanRange.
+Fixpoint atoi_scan (n : Z) (s : bytes) : scan_res :=
+  match s with
+  | [] => ScanOk n
+  | c :: t =>
+      if negb (is_digit c) then ScanSyntax
+      else if max_u64 / 10 + 1 <=? n then ScanRange
+      else let n1 := n * 10 + (Z.of_N c - 48) in
+           if max_u64 <? n1 then ScanRange else atoi_scan n1 t
+  end.
+(* strconv.Atoi with the error dropped: 0 on a syntax error, the nearest int on a range error *)
+Definition atoi (s : bytes) : Z :=
+  let '(neg, ds) := match s with
+                    | 45%N :: t => (true, t)
+                    | 43%N :: t => (false, t)
+                    | _ => (false, s)
+                    end in
+  match ds with
+  | [] => 0
+  | _ => match atoi_scan 0 ds with
+         | ScanSyntax => 0
+         | ScanRange => if neg then - (max_i64 + 1) else max_i64
+         | ScanOk un => if neg then (if max_i64 + 1 <? un then - (max_i64 + 1) else - un)
+                        else (if max_i64 <? un then max_i64 else un)
+         end
+  end.
+
+Definition nth_part (l : list bytes) (i : nat) : Z := match nth_error l i with Some p => atoi p | None => 0 end.
+
+Definition k_major : bytes := [109; 97; 106; 111; 114]%N.
+Definition k_minor : bytes := [109; 105; 110; 111; 114]%N.
+Definition k_revision : bytes := [114; 101; 118; 105; 115; 105; 111; 110]%N.
+Definition k_extra : bytes := [101; 120; 116; 114; 97]%N.
+Definition k_version : bytes := [118; 101; 114; 115; 105; 111; 110]%N.
+Definition k_signature : bytes := [115; 105; 103; 110; 97; 116; 117; 114; 101]%N.
+
+Definition version_value (g : cfg) (version : bytes) : jv :=
+  let vs := split_on 45 version [] in
+  let extra := match vs with _ :: e :: _ => atoi e | _ => 0 end in
+  let ps := split_on 46 (match vs with v0 :: _ => v0 | [] => [] end) [] in
+  (* json.Marshal sorts the keys of the map *)
+  JObj [(k_extra, JInt extra); (k_major, JInt (nth_part ps 0)); (k_minor, JInt (nth_part ps 1));
+        (k_revision, JInt (nth_part ps 2)); (k_signature, JStr (srv_name g)); (k_version, JStr version)].
+
+Definition respond_version (g : cfg) (cb : bytes) (version : bytes) : resp :=
+  respond g cb (PData (version_value g version) []).
+
 (* ---- client ---- *)
 (* what apiParse sees after json.Unmarshal(body, &map): *)
 Inductive view :=
@@ -143,8 +204,9 @@ Definition body_view (b : abody) (tv : view) : view :=
   end.
 
 (* ---- harness interface ----
-   case (payload xcb xserver pid)
-     payload = (0 v xmerr tv) | (1 c) | (2 c xmsg w) | (3 c xmsg hs) | (4 st xmsg tv)   st = -1: no Status()
+   case (payload xcb xserver pid api)        api: which wrapper is called (Data / WriteData / Success,
+                                              Error / WriteError / CplxError / WriteCplxError); not modelled apart
+     payload = (0 v xmerr tv) | (1 c) | (2 c xmsg w) | (3 c xmsg hs) | (4 st xmsg tv) | (5 xversion): WriteVersion   st = -1: no Status()
      v = (0) | (1 b) | (2 bits) | (3 xstr) | (4 v...) | (5 (xkey v)...) | (6 k)
      tv = (0) | (1) | (2) | (3 c): what encoding/json + apiParse make of the text body
    observation (status ctype xserver body client)
@@ -220,17 +282,45 @@ Definition sx_payload (s : sx) : option (payload * view) :=
   | _ => None
   end.
 
+(* the float64 bit pattern of an integer (a Go int inside the data member is read back by a
+   JSON decoder as a float64) *)
+Definition f64_bits_of_int (z : Z) : N :=
+  let a := Z.abs (round53 z) in
+  if a =? 0 then 0%N
+  else let e := Z.log2 a in
+       let mant := (if e <=? 52 then a * 2 ^ (52 - e) else a / 2 ^ (e - 52)) - 4503599627370496 in
+       Z.to_N ((if z <? 0 then 9223372036854775808 else 0) + (e + 1023) * 4503599627370496 + mant).
+
+Fixpoint norm_jv (v : jv) : jv :=
+  match v with
+  | JInt z => JNum (f64_bits_of_int z)
+  | JArr l => JArr ((fix go (l : list jv) := match l with [] => [] | x :: t => norm_jv x :: go t end) l)
+  | JObj m => JObj ((fix go (m : list (bytes * jv)) :=
+                       match m with [] => [] | (k, x) :: t => (k, norm_jv x) :: go t end) m)
+  | _ => v
+  end.
+
+(* top-level code / server members are compared as exact integers, everything below as decoded *)
+Definition member_sx (kv : bytes * jv) : sx :=
+  SL [SB (fst kv); jv_sx (match snd kv with JInt z => JInt z | v => norm_jv v end)].
+
 Definition ctype_code (c : ctype) : Z := match c with CtJson => 0 | CtJs => 1 | CtText => 2 end.
 
 Definition body_sx (b : abody) : sx :=
   match b with
-  | BEnv cb m => SL [SZ 0; SB cb; SL (map (fun kv => SL [SB (fst kv); jv_sx (snd kv)]) m)]
+  | BEnv cb m => SL [SZ 0; SB cb; SL (map member_sx m)]
   | BText t => SL [SZ 1; SB t]
   end.
 
 Definition run_c19 (c : sx) : sx :=
   match c with
-  | SL [p; SB cb; SB srv; SZ pd] =>
+  | SL [SL [SZ 5; SB ver]; SB cb; SB srv; SZ pd; SZ _] =>
+      let r := respond_version {| srv_name := srv; pid := pd |} cb ver in
+      let cl := if is_nil cb
+                then let '(code, err) := client (status r) (body_view (body r) VFail) in SL [sbool err; SZ code]
+                else SL [] in
+      SL [SZ (status r); SZ (ctype_code (ctyp r)); SB (server r); body_sx (body r); cl]
+  | SL [p; SB cb; SB srv; SZ pd; SZ _] =>
       match sx_payload p with
       | Some (pl, tv) =>
           let r := respond {| srv_name := srv; pid := pd |} cb pl in
